@@ -108,7 +108,9 @@ func (a *Act) builtin(st *State, f *ssa.Builtin, args []Val, c *ssa.CallCommon, 
 		addr := a.alloc(st, "new")
 		et := deref(resT)
 		a.storeAtQuiet(st, addr, et, a.zero(et))
-		return Val{S: addr, Sort: sInt, T: resT}
+		r := Val{S: addr, Sort: sInt, T: resT}
+		a.zeroFacts(st, r, et)
+		return r
 	}
 	vc.unsupported("builtin %s", f.Name())
 	_ = g
